@@ -22,7 +22,7 @@ ASSUMPTIONS = ["exact rational arithmetic (fractions) for all predicates", "quer
 FLOORS = {'quick': {'ray-status': 1500, 'ray-params': 500, 'is_left': 1500, 'wn_poly': 5000, 'hull': 300, 'voxel-fill': 1500,
                     'voxel-cover': 500, 'find_ctrlpts': 300},
           'thorough': {'ray-status': 15000, 'wn_poly': 50000, 'hull': 3000, 'voxel-fill': 15000}}
-MANDATORY_TAGS = ['ray:near-parallel-generic', 'vox:container-sizes-differ', 'vox:other-unit-of-length', 'ray:shared-far-end', 'vox:lattice', 'vox:padding=0.0', 'ray:cross2d', 'ray:cross3d', 'ray:parallel', 'ray:coincident', 'ray:skew', 'vox:planar-axis-aligned', 'vox:padding', 'ray:near-parallel', 'is_left:near-collinear', 'hull:float-near-collinear', 'ray:generic-cross2d', 'ray:generic-cross3d', 'ray:coords<=1000', 'ray:scale=2^-24', 'ray:scale=2^20', 'poly:star', 'poly:orthogonal',
+MANDATORY_TAGS = ['ray:near-parallel-skew', 'ray:near-parallel-generic', 'vox:container-sizes-differ', 'vox:other-unit-of-length', 'ray:shared-far-end', 'vox:lattice', 'vox:padding=0.0', 'ray:cross2d', 'ray:cross3d', 'ray:parallel', 'ray:coincident', 'ray:skew', 'vox:planar-axis-aligned', 'vox:padding', 'ray:near-parallel', 'is_left:near-collinear', 'hull:float-near-collinear', 'ray:generic-cross2d', 'ray:generic-cross3d', 'ray:coords<=1000', 'ray:scale=2^-24', 'ray:scale=2^20', 'poly:star', 'poly:orthogonal',
                   'poly:cw', 'poly:ccw', 'hull:collinear', 'vox:surface', 'vox:volume', 'vox:cubes', 'find:unnormalized']
 TECHNIQUE = ("runtime monitoring: exact-arithmetic oracles (orientation, crossing parity, definitional hull test, exact line "
              "intersection, point-in-box) on every predicate / query call of a constructed-class workload")
@@ -224,7 +224,7 @@ def check_rays_generic(case, ctx):
         M = rng.choice([10, 100, 1000])
         sc = 2.0 ** rng.choice([0, 0, 0, -24, -10, 10, 20])
         cls = rng.choice(['cross-int', 'cross-int', 'generic', 'skew', 'coincident', 'near-parallel', 'near-parallel', 'shared-far-end',
-                          'near-parallel-generic'])
+                          'near-parallel-generic', 'near-parallel-skew'])
 
         def P(m=M):
             return [rng.randint(-m, m) for _ in range(dim)]
@@ -260,6 +260,17 @@ def check_rays_generic(case, ctx):
                 continue
             a, b = list(d1), [2.0 * x for x in d1]
             c, d = [-x for x in d2], [-2.0 * x for x in d2]
+        elif cls == 'near-parallel-skew':
+            # (sixth hunt) two almost parallel lines (3e-6 .. 1e-3 rad) in the parallel planes z = 0 and z = 1e-8 .. 1e-6 of a model of
+            # size 1: they are 1e-8 .. 1e-6 apart, thousands of times the round-off of the computed distance - SKEW
+            if dim == 2:
+                continue
+            M = 1
+            ang_ = 10.0 ** -rng.uniform(3.0, 5.5)
+            off_ = 10.0 ** -rng.uniform(6.0, 8.0)
+            cs_, sn_ = math.cos(ang_), math.sin(ang_)
+            a, b = [0.0, 0.0, 0.0], [1.0, 0.0, 0.0]
+            c, d = [0.5 - 0.5 * cs_, -0.5 * sn_, off_], [0.5 + 0.5 * cs_, 0.5 * sn_, off_]
         elif cls == 'shared-far-end':
             # two rays from ordinary decimal points near the origin to ONE far point (both are given by their end points, so they cross
             # there exactly, at t1 = t2 = 1, whatever the rounding of the directions)
@@ -339,6 +350,8 @@ def check_rays_generic(case, ctx):
             ctx.tag('ray:shared-far-end')
         if cls == 'near-parallel-generic':
             ctx.tag('ray:near-parallel-generic')
+        if cls == 'near-parallel-skew':
+            ctx.tag('ray:near-parallel-skew')
         if not ctx.check(st == exp, 'ray/status', '%s: status %r, exact arithmetic says %r' % (desc, st, exp), what='ray-status'):
             continue
         if exp == RI.INTERSECT:
